@@ -28,6 +28,14 @@ extern "C" void gcry_md_hash_buffer(int algo, void *digest, const void *buffer, 
 	if (g_cap) g_hash_in.assign((const char*)buffer, length);
 	real(algo, digest, buffer, length);
 }
+// observe the nonces given to the AEAD cipher
+static bool g_capiv = false; static std::vector<std::string> g_ivs;
+extern "C" gcry_error_t gcry_cipher_setiv(gcry_cipher_hd_t hd, const void *iv, size_t ivlen) {
+	typedef gcry_error_t (*fn_t)(gcry_cipher_hd_t, const void*, size_t);
+	static fn_t real = (fn_t)dlsym(RTLD_NEXT, "gcry_cipher_setiv");
+	if (g_capiv) g_ivs.push_back(std::string((const char*)iv, ivlen));
+	return real(hd, iv, ivlen);
+}
 static std::string S(const oct &o) { return std::string(o.begin(), o.end()); }
 static oct rnd_oct(size_t n) { oct r(n); for (size_t i = 0; i < n; i++) r[i] = (unsigned char)gen().next(); return r; }
 static uint64_t g_cases = 0, g_benign = 0;
@@ -396,6 +404,24 @@ static void enc_aead_suite() {
 		}
 	}
 }
+// nonce schedule of the chunked AEAD encryption: records for the model, and the requirement that no nonce repeats
+static void aead_nonce_suite() {
+	static const int AE[] = { TMCG_OPENPGP_AEADALGO_OCB, TMCG_OPENPGP_AEADALGO_EAX };
+	for (int ai = 0; ai < 2; ai++) for (size_t chunks = 1; chunks <= (T ? 12u : 6u); chunks++) {
+		int ae = AE[ai]; unsigned cs = 0; size_t n = chunks * 64 - gen().below(64);
+		oct plain = rnd_oct(n), ad, iv, enc; tmcg_openpgp_secure_octets_t key;
+		ad.push_back(0xD4); ad.push_back(1); ad.push_back(TMCG_OPENPGP_SKALGO_AES128); ad.push_back(ae); ad.push_back(cs); for (int i = 0; i < 8; i++) ad.push_back(0);
+		g_ivs.clear(); g_capiv = true;
+		gcry_error_t e = PGP::SymmetricEncryptAEAD(plain, key, TMCG_OPENPGP_SKALGO_AES128, (tmcg_openpgp_aeadalgo_t)ae, cs, ad, 0, iv, enc);
+		g_capiv = false;
+		if (e) continue;
+		for (size_t c = 0; c < g_ivs.size(); c++) Rec("aead_nonce").b(S(iv)).d(c).b(g_ivs[c]);
+		for (size_t a = 0; a < g_ivs.size(); a++) for (size_t b = a + 1; b < g_ivs.size(); b++) if (g_ivs[a] == g_ivs[b]) {
+			propfail("aead-nonce-reuse", "SymmetricEncryptAEAD uses the same nonce for chunk " + std::to_string(a) + " and chunk " + std::to_string(b) + " of one message (" + std::to_string(n) + " octets, chunk size 64, mode " + std::to_string(ae) + ")");
+			a = g_ivs.size(); break; }
+		g_cases++;
+	}
+}
 // public-key wrapping of the session key
 static void pke_suite(const Key &rsa, const Key &elg, const Key *ecdh) {
 	for (int rep = 0; rep < (T ? 6 : 2); rep++) {
@@ -458,6 +484,7 @@ int main(int argc, char **argv) {
 		if (!genkey(k, "(genkey (ecc (curve Ed25519) (flags eddsa)))")) propfail("keygen", "cannot generate EdDSA key"); else sig_suite(k); }
 	if (on("enc-mdc")) enc_mdc_suite();
 	if (on("enc-aead")) enc_aead_suite();
+	if (on("aead-nonce")) aead_nonce_suite();
 	if (on("pke")) { Key rsa, elg, ec; bool a = genkey(rsa, "(genkey (rsa (nbits 4:2048)(transient-key)))"), b = genkey(elg, "(genkey (elg (nbits 4:2048)(transient-key)))"), c = genkey(ec, "(genkey (ecc (curve secp256r1)))");
 		if (!a || !b) propfail("keygen", "cannot generate encryption keys"); else pke_suite(rsa, elg, c ? &ec : NULL); }
 	printf("CASES %llu BENIGN %llu\n", (unsigned long long)g_cases, (unsigned long long)g_benign);
